@@ -375,7 +375,7 @@ pub fn run(thorough: bool, seed: u64, driver: &str, rep: &mut Report) {
                 let size = rng.range(2, 60);
                 let mut t = random_shape(&mut rng, size);
                 let mode = *rng.pick(&[LenMode::All, LenMode::All, LenMode::Mixed, LenMode::None]);
-                let rl = rng.chance(1, 3); label(&mut rng, &mut t, &LabelOpts { len_mode: mode, comments_pct: 10, root_len: rl, ..Default::default() });
+                let rl = rng.chance(1, 3); label(&mut rng, &mut t, &LabelOpts { len_mode: mode, comments_pct: 10, root_len: rl, ..Default::default() }); if odd_labels(&mut rng, &mut t) { rep.count("trees_with_odd_labels"); }
                 run_all(&t, &mut rng, false, rep, &mut batch);
                 rep.count("random_trees");
                 if batch.n_requests() > 100_000 {
